@@ -192,6 +192,21 @@ fn do_read<'db>(db: &'db VDb, op: &Op, n: usize, held: &mut Vec<&'db Val>) {
                 Err(p) => end_panic(p),
             }
         }
+        "mkin" | "mkint" => {
+            let r = catch_unwind(AssertUnwindSafe(|| {
+                if op.op == "mkin" {
+                    make_inputs(db, op.k, op.v)
+                } else {
+                    make_interned(db, op.k, op.v)
+                }
+            }));
+            match r {
+                Ok(()) => {
+                    ev!("e": "ret", "ok": 1, "kind": "", "msg": "", "v": 0, "s": 0, "hs": Vec::<String>::new(), "acc": Vec::<i64>::new())
+                }
+                Err(p) => end_panic(p),
+            }
+        }
         "accum" => {
             let r = catch_unwind(AssertUnwindSafe(|| accumulated(db, op.f as usize)));
             match r {
